@@ -296,7 +296,9 @@ Inductive op :=
 | OClose
 | OSetRecSize (n : Z)                (* conn.recordSize = n *)
 | OSetDev (d : Z)                    (* configure the deviating PHA client *)
-| OInject (m : msg).                 (* deviating peer: send one control record under the current keys *)
+| OInject (m : msg)                  (* deviating peer: send one control record under the current keys *)
+| OReplayPha.                        (* deviating client: resend, verbatim, its (valid) answer to the first
+                                        CertificateRequest it saw *)
 
 (* records a deviating peer may inject: everything except data, valid KeyUpdates (a peer that
    announces a key change and does not perform it has desynchronised itself) and alerts *)
@@ -370,6 +372,9 @@ Definition act (s : st) (o : op) : st * outT :=
   | OInject m =>
       if cl || negb (injectable m) then same 2000
       else sends me [emit me m] 0
+  | OReplayPha =>
+      if cl || (first_ctx (au me) =? 0) then same 2000
+      else sends me (map (emit me) [MCert (first_ctx (au me)) (my_chain (cf me)); MCV true; MFin true]) 0
   end.
 
 (* actor: true = the endpoint in position [ea] (the client in [init]), false = the other one *)
